@@ -449,6 +449,14 @@ def _inline_temp(name, value, st):
   return False
 
 
+def _immutable_literal(e):
+  if isinstance(e, ast.Constant):
+    return isinstance(e.value, (str, int, float, bytes)) or e.value is None
+  if isinstance(e, ast.Tuple):
+    return bool(e.elts) and all(_immutable_literal(x) for x in e.elts)
+  return False
+
+
 def _chain(e):
   parts = []
   while isinstance(e, ast.Attribute):
@@ -498,6 +506,17 @@ def _propagate_aliases(fn):
         n.targets[0], ast.Name):
       t = n.targets[0].id
       if any(il.get(t, 0) != loads.get(t, 0) for il in in_with.get(id(n), [])):
+        continue
+      # a local bound once to an immutable literal (a string, a number, a
+      # tuple of such) stands for the literal
+      once = t not in params and stores.get(t, 0) == 1
+      lit_tuple = isinstance(n.value, ast.Tuple) and _immutable_literal(n.value)
+      lit_scalar = isinstance(n.value, ast.Constant) and isinstance(
+          n.value.value, (str, int)) and not isinstance(n.value.value, bool)
+      if once and ((lit_tuple and loads.get(t, 0) >= 1) or
+                   (lit_scalar and loads.get(t, 0) >= 2)):
+        aliases[t] = n.value
+        owners.append(n)
         continue
       ch = _chain(n.value)
       if ch is None or t in params or stores.get(t, 0) != 1 or \
